@@ -220,6 +220,8 @@ def run(ctx):
             if kv.get("irbad", "0") != "0":
                 report_corr(cid, kv, "Lean port intersectRanges differs from the injection ranges the harness used (which reproduce the real stream)", "intersectRanges=content_ranges")
             dist["N:DefsNice(hypothesis of merge_events_in_place)=%s" % kv.get("defsnice")] += 1
+            if nl >= 2:
+                dist["N:multi-layer:static=%s,crossNice=%s,staticNice(premise of merge_well_nested_partial)=%s" % (kv.get("static"), kv.get("crossnice"), kv.get("staticnice"))] += 1
             if kv.get("refsup") != "1":
                 report_corr(cid, kv, "layer table of a real case violates refsUp (hypothesis of merge_multi_wellformed)", "refsUp")
             if kv.get("defsin") != "1":
